@@ -63,6 +63,15 @@ def check_formatting(acc, sig, case, got_cells, run_atts, shared, need_shared):
             return
 
 
+def sc_join(sep_cells, items):
+    out = []
+    for i, it in enumerate(items):
+        if i:
+            out += sep_cells
+        out += it
+    return out
+
+
 def check_value(acc, spec, thorough):
     f = C.build(spec)
     fc = C.cells(f)
@@ -149,6 +158,31 @@ def check_value(acc, spec, thorough):
             bounds.append((pos, pos + (len(full) if keep else len(bare))))
             pos += len(full)
         pieces_check("splitlines" + ("_keepends" if keep else ""), label, got, bounds)
+    # --- join: f as separator and as (reused) item -----------------------------------------------------------------
+    from curtsies.formatstring import fmtstr as _fmtstr
+
+    other = _fmtstr("q", "green")
+    for label, make in (
+        ("f.join([other, 'k', other])", lambda: (f.join([other, "k", other]), text.join(["q", "k", "q"]), sc_join(fc, [C.cells(other), [("k", ())], C.cells(other)]))),
+        ("other.join([f, f])", lambda: (other.join([f, f]), "q".join([text, text]), sc_join(C.cells(other), [fc, fc]))),
+        ("other.join([f, 'k', f]) again", lambda: (other.join([f, "k", f]), "q".join([text, "k", text]), sc_join(C.cells(other), [fc, [("k", ())], fc]))),
+        ("fmtstr('').join([f, other])", lambda: (_fmtstr("").join([f, other]), text + "q", fc + C.cells(other))),
+        ("fmtstr('').join([f, other]) again", lambda: (_fmtstr("").join([f, other]), text + "q", fc + C.cells(other))),
+    ):
+        case = {"f": shown, "call": label}
+        acc.case(n > 0, key=(spec, label), sample=case)
+        acc.transitions += 1
+        try:
+            got, want_text, want_cells = make()
+        except Exception as ex:  # noqa
+            acc.failure("C15:exception_mismatch:join", case, repr(ex))
+            continue
+        if got.s != want_text:
+            acc.failure("C15:text:join", case, "got %r expected %r" % (got.s, want_text))
+        elif C.cells(got) != want_cells:
+            acc.failure("C15:pieces_formatting:join", case, "got %r expected %r" % (C.cells(got), want_cells))
+    if C.cells(other) != [("q", (("fg", 32),))]:
+        acc.failure("C15:operand_changed", {"f": shown}, "join changed an item")
     # --- ljust / rjust ----------------------------------------------------------------------------
     for meth in ("ljust", "rjust"):
         for w in range(0, n + 3):
